@@ -94,7 +94,7 @@ func (s *Server) cmdSetHook(msg *Message) (
 				return NOMessage, d, errInvalidNumberOfArguments
 			}
 			v, err := strconv.ParseFloat(s, 64)
-			if err != nil {
+			if err != nil || math.IsNaN(v) {
 				return NOMessage, d, errInvalidArgument(s)
 			}
 			expires = v
